@@ -479,6 +479,21 @@ func c04ClaimMuts(x *c04World, art string) []c04Mut {
 	add("exp=now-1d", func(m map[string]interface{}) { m["exp"] = now - 86400 })
 	add("exp=0", func(m map[string]interface{}) { m["exp"] = 0 })
 	add("iat=future", func(m map[string]interface{}) { m["iat"] = now + 3600 })
+	if tt, _ := cl["token_type"].(string); tt == "storage_data" {
+		// a storage record is looked up for one user and one data type: a genuinely
+		// signed record of another subject (or type) planted in that row is refused
+		rejm := func(name string, f func(m map[string]interface{})) {
+			m := cp()
+			f(m)
+			res = append(res, c04Mut{Name: name, Art: x.c04Resign(hdr, m), Model: "reject"})
+		}
+		sub := fmt.Sprint(cl["sub"])
+		rejm("sub=other-user", func(m map[string]interface{}) { m["sub"] = "bob" })
+		rejm("sub=case-twin", func(m map[string]interface{}) { m["sub"] = strings.ToUpper(sub[:1]) + sub[1:] })
+		rejm("sub=upper", func(m map[string]interface{}) { m["sub"] = strings.ToUpper(sub) })
+		rejm("sub=prefix", func(m map[string]interface{}) { m["sub"] = sub[:len(sub)-1] })
+		rejm("sub=empty", func(m map[string]interface{}) { m["sub"] = "" })
+	}
 	return res
 }
 
